@@ -44,6 +44,30 @@ class ReadByte(Contract):
 
 
 @contract
+class RemainingSize(Contract):
+    """bytes left in a header buffer: what bounds every count that the header declares (FX24); the position is restored"""
+
+    target = AI + "remaining_size"
+    props = ("C05", "C06")
+
+    def setup(self, c):
+        return {"file": c.instream("file")}
+
+    def modifies(self, c, file):
+        return [(file, "pos")]
+
+    def fresh_result(self, c, file):
+        return c.int("remaining")
+
+    def ensures(self, c, old, result, file):
+        return [
+            ("bytes-up-to-the-end", result == L(old.data(file)) - old.pos(file)),
+            ("position-restored", c.pos(file) == old.pos(file)),
+            ("frame-data", eq(c.data(file), old.data(file))),
+        ]
+
+
+@contract
 class WriteBytes(Contract):
     target = AI + "write_bytes"
     props = ("C17", "C07")
